@@ -239,7 +239,7 @@ class C11(Prop):
             "tie are laid out the same way; every bipartition with the legs in natural or fully reversed order (the pure-regrouping paths) is "
             "run with EVERY layout (quick: one shape each of order 2, 3; thorough: all fixed shapes of order 2..5) and a quarter of the sampled "
             "bipartitions keep the natural leg order; "
-            "orders 0..6, dimensions 1..5, all (n+1)! ordered bipartitions for every order <= 4 (quick: one shape at order 4; thorough: three, plus all 720 of one order-5 shape), sampled for orders 5, 6; a malformed "
+            "orders 0..6, dimensions 1..5 (large members: see below), all (n+1)! ordered bipartitions for every order <= 4 (quick: one shape at order 4; thorough: three, plus all 720 of one order-5 shape), sampled for orders 5, 6; a malformed "
             "stream (duplicate / missing / out-of-range legs) that both sides must reject. Entry kinds: generic, low rank, exactly degenerate "
             "spectrum, small integers, constant, zero, vanishing slices, few non-vanishing entries (equal or generic weights), zero-padded "
             "block. Every case runs the truncated splitting (truncated_tensor_svd and the three contraction modes) three times: truncation "
@@ -253,7 +253,13 @@ class C11(Prop):
             "purely relative tolerances (1e-9 * largest entry, Gram matrices by the power of the scale they carry), sum criterion in 60% of "
             "them; exact-zero family: tensors with exactly vanishing singular values with both tolerances exactly 0 / -inf (an exact tie of "
             "the smallest singular value with the cutoff), at scale 1 and at powers of ten; both families prefer matricisations with >= 2 "
-            "singular values. non-trivial = order >= 2 and size >= 2; distinct by case content")
+            "singular values. LARGE members (quick: 9 per run, thorough: 150): orders 2..6 with 512..4608 entries (70% of them >= 2048; a fifth of "
+            "the thorough ones up to 8192), dimensions up to 96 (order 2: up to 1536), longer side of the matricisation <= 1536; every third "
+            "one combines >= 2048 entries AND a strongly rectangular matricisation (aspect ratio >= 16, short side >= 2; tall or wide) AND "
+            "rank-deficient entries (low rank with a random rank 1..k-1, zero-padded, vanishing slices, sparse, small integers, constant), the "
+            "others draw the three attributes independently (half rectangular, half rank deficient); any layout / dtype / leg order, all "
+            "entry points, the truncation-off run now also checks S descending and U, Vh isometries; their model tie is dealt round-robin "
+            "over the parallel shards. non-trivial = order >= 2 and size >= 2; distinct by case content")
     clauses = [
         ("F", "row-major flatten/unflatten are inverse on the index box of any shape; the lexicographic box enumeration maps onto "
               "0..size-1 (C11_flatten_unflatten, C11_unflatten_flatten, C11_flatten_bijection)"),
@@ -341,7 +347,7 @@ class C11(Prop):
 
     # -- LARGE members: tensors with 512..4608 (thorough: ..8192) entries, orders 2..6, dimensions up to 1536
     LARGE_FALLBACK = {2: [256, 9], 3: [16, 16, 9], 4: [16, 16, 3, 3], 5: [4, 4, 16, 3, 3], 6: [4, 4, 4, 4, 3, 3]}
-    DEFICIENT = ["lowrank", "lowrank", "lowrank", "padded", "zeroslice", "sparse", "int", "ones", "degenerate"]
+    DEFICIENT = ["lowrank", "lowrank", "lowrank", "lowrank", "padded", "zeroslice", "sparse", "int", "ones"]
 
     def _large_shape(self, rng, n, lo, hi):
         for _ in range(200):
@@ -527,6 +533,18 @@ class C11(Prop):
             c["layout:" + x.get("layout", "C")] += 1
             if x["ql"] + x["rl"] == sorted(x["ql"] + x["rl"]) and len(sh) >= 2:
                 c["legs_natural_order:" + ("row_major" if x.get("layout", "C") == "C" else "other_layout")] += 1
+            if x.get("large"):
+                c["large:members"] += 1
+                c["large:size_" + ("512..2047" if prod(sh) < 2048 else "2048..4608" if prod(sh) <= 4608 else "4609..8192")] += 1
+                rect = min(m, n) >= 2 and max(m, n) >= 16 * min(m, n)
+                if rect:
+                    c["large:aspect_ratio_ge_16"] += 1
+                deficient = x["content"] in ("lowrank", "padded", "zeroslice", "sparse", "int", "ones", "zero")
+                if deficient:
+                    c["large:rank_deficient_kind"] += 1
+                if rect and deficient and prod(sh) >= 2048:
+                    c["large:ge_2048_and_rectangular_and_rank_deficient"] += 1
+                c["large:long_side_" + ("le_256" if max(m, n) <= 256 else "257..1536")] += 1
             if "sexp" in x:
                 e = x["sexp"]
                 c["scale:" + ("1e-100..1e-12" if e < -12 else "1e-12..1e-4" if e < -4 else "1e-4..1e4" if e <= 4
@@ -694,7 +712,31 @@ class C11(Prop):
             tr = "[" + "; ".join(f"trunc_shapes {p} {a}" for p in ps) + "]"
             co = "[" + "; ".join(f"contr_shapes {cm} {p} {a}" for p in ps for cm in CMODES) + "]"
             exprs.append(f"(cmp_enc (matricize_enc {a}) {NL(em)}, cmp_enc (transpose_enc {a}) {NL(et)}, {qr}, {sv}, {tr}, {co})")
-        return coq_eval(ctx, "From Coq Require Import NArith. " + IMPORTS, exprs, shard=40, scope="nat_scope")
+        # the model works on unary numbers: a large member costs seconds.  The shards (of 40 consecutive expressions) are
+        # evaluated in parallel, so the large members are dealt round-robin over the shards, the others fill up.
+        shard = 40
+        nsh = max(1, -(-len(exprs) // shard))
+        cap = [min(shard, len(exprs) - k * shard) for k in range(nsh)]
+        bins = [[] for _ in range(nsh)]
+        heavy = [i for i, c in enumerate(cases) if prod(c["shape"]) >= 500]
+        light = [i for i, c in enumerate(cases) if prod(c["shape"]) < 500]
+        k = 0
+        for i in heavy:
+            while len(bins[k % nsh]) >= cap[k % nsh]:
+                k += 1
+            bins[k % nsh].append(i)
+            k += 1
+        it = iter(light)
+        for k in range(nsh):
+            while len(bins[k]) < cap[k]:
+                bins[k].append(next(it))
+        order = [i for b in bins for i in b]
+        assert sorted(order) == list(range(len(exprs)))
+        vals = coq_eval(ctx, "From Coq Require Import NArith. " + IMPORTS, [exprs[i] for i in order], shard=shard, scope="nat_scope")
+        out = [None] * len(exprs)
+        for i, v in zip(order, vals):
+            out[i] = v
+        return out
 
     @staticmethod
     def _opt_pair(v):
@@ -889,6 +931,14 @@ class C11(Prop):
             elif tag == "nt":
                 if sref[0] > 0 and p != k:
                     return f"truncation disabled but {p} of {k} singular values kept"
+                if np.iscomplexobj(s) or np.any(s < 0) or np.any(np.diff(s) > 1e-12 * floor(scale)):
+                    return f"truncated SVD (nt): singular values not real, non-negative and descending: {np.asarray(s).tolist()}"
+                if not close(gram_last(u), np.eye(p)):
+                    return (f"truncated SVD (nt): U is not an isometry, max |U^H U - 1| = "
+                            f"{float(np.max(np.abs(gram_last(u) - np.eye(p)))):.3g} ({m}x{nn} matricisation, s={sref.tolist()[:12]})")
+                if not close(gram_first(vh), np.eye(p)):
+                    return (f"truncated SVD (nt): Vh is not an isometry, max |Vh Vh^H - 1| = "
+                            f"{float(np.max(np.abs(gram_first(vh) - np.eye(p)))):.3g} ({m}x{nn} matricisation, s={sref.tolist()[:12]})")
                 target = expected
             else:
                 par = case["trunc"]
